@@ -97,6 +97,19 @@ func c06ExecMode(t testing.TB, cfg c06Cfg, script []c06Op, gen func(e *c06Env, n
 			run.rogue = true
 		}
 		e.curTok = fmt.Sprintf("#%d %s", len(run.tokens), op.kind)
+		if op.kind == "ps" {
+			// a SETTINGS frame that can raise the stream limit without touching INITIAL_WINDOW_SIZE:
+			// MAX_CONCURRENT_STREAMS without INITIAL_WINDOW_SIZE, or the first SETTINGS frame without
+			// MAX_CONCURRENT_STREAMS (the default of 1000 replaces the initial 100)
+			mcs, iws := false, false
+			for _, v := range op.vals {
+				mcs = mcs || v.ID == xhttp2.SettingMaxConcurrentStreams
+				iws = iws || v.ID == xhttp2.SettingInitialWindowSize
+			}
+			if !iws && (mcs || !e.settingsSent) {
+				e.curTok += " limit-only"
+			}
+		}
 		switch op.kind {
 		case "o":
 			tok = e.open(op.a, op.flag, op.b, c06Shape{head: op.head, trailer: op.trlp1 - 1})
@@ -269,7 +282,18 @@ func c06Judge(s *verifh.Session, runs []*c06Run) {
 	}
 	for i, r := range runs {
 		impl := strings.Join(r.transcript, ";")
-		if impl != ans[2*i] && c06TruncatedAtClose(r.transcript, strings.Split(ans[2*i], ";")) {
+		if impl != ans[2*i] {
+			// a connection error (not an idle close) in the last operation: the read loop writes
+			// GOAWAY unflushed, aborts every open stream and closes the socket; each aborted stream's
+			// goroutine then races to write its RST_STREAM (whose flush carries the GOAWAY out) against
+			// that close. Which of them reach the peer is the scheduler's choice and all of it is
+			// legal: GOAWAY and RST_STREAMs the model does not have are dropped from that operation.
+			if canon, ok := c06DropTeardownFrames(r.transcript, strings.Split(ans[2*i], ";")); ok {
+				s.Count("teardown-frames")
+				impl = canon
+			}
+		}
+		if impl != ans[2*i] && c06TruncatedAtClose(strings.Split(impl, ";"), strings.Split(ans[2*i], ";")) {
 			// safety net (expected count 0 since the lane waits for the frames of a normally
 			// finished stream before its barrier PING): the client closed the connection (idle
 			// close after GOAWAY / doNotReuse) in the last operation and the peer lost the tail of
@@ -301,9 +325,10 @@ func c06Judge(s *verifh.Session, runs []*c06Run) {
 				}
 			}
 			s.Count("known-defect:" + class)
-		} else if len(r.lostWakeups) > 0 && impl == ans[2*i] {
+		} else if len(r.lostWakeups) > 0 && impl == ans[2*i] && c06AllLimitOnly(r.lostWakeups) {
 			// the wake-up lane: frames as the repaired model has them (the lane woke the waiter
-			// itself), but a RoundTrip that could go ahead had been left asleep
+			// itself), but a RoundTrip that could go ahead had been left asleep - by a SETTINGS frame
+			// that raised the stream limit and nothing else (any other lost wake-up is not this finding)
 			class = c06Classes[8]
 			s.Count("known-defect:" + class)
 		}
@@ -322,6 +347,53 @@ func c06Judge(s *verifh.Session, runs []*c06Run) {
 		}
 		s.Case(r.line(c06AllFixes), impl, propOK, class, len(r.tokens) >= 4, human)
 	}
+}
+
+func c06AllLimitOnly(toks []string) bool {
+	for _, t := range toks {
+		if !strings.HasSuffix(t, " limit-only") {
+			return false
+		}
+	}
+	return true
+}
+
+// c06DropTeardownFrames: both transcripts end with a connection close in their last operation;
+// "G" and every "R<id>" that the model's last operation does not have are removed from the
+// implementation's. Reports whether anything was removed.
+func c06DropTeardownFrames(impl, model []string) (string, bool) {
+	n := len(impl)
+	if n == 0 || n != len(model) {
+		return "", false
+	}
+	has := func(op, tok string) bool {
+		for _, f := range strings.Split(op, ",") {
+			if f == tok {
+				return true
+			}
+		}
+		return false
+	}
+	if !has(impl[n-1], "X") || !has(model[n-1], "X") {
+		return "", false
+	}
+	var keep []string
+	removed := false
+	for _, f := range strings.Split(impl[n-1], ",") {
+		if (f == "G" || (strings.HasPrefix(f, "R") && len(f) > 1)) && !has(model[n-1], f) {
+			removed = true
+			continue
+		}
+		keep = append(keep, f)
+	}
+	if !removed {
+		return "", false
+	}
+	if len(keep) > 0 && keep[0] == "X" {
+		keep = append([]string{"-"}, keep...) // the rendering of an operation without frames
+	}
+	out := append(append([]string{}, impl[:n-1]...), strings.Join(keep, ","))
+	return strings.Join(out, ";"), true
 }
 
 // c06TruncatedAtClose: both transcripts are equal up to the last operation, both end in a
